@@ -23,7 +23,7 @@ CHECKS = {
                 text="Theorems C02_UdU, C02_UUd, C02_adjoint, C02_Ht_hermitian (+ _two_block) for every solution of the regenerated main_alg in every BlockAlg.",
                 note=ALG_NOTE),
     "C03": dict(cat="proof", tech="Coq theorem on the regenerated main_alg + uniqueness by filtration induction + independent exact reference solver",
-                text="Theorems C03_gauge (+ _two_block), C03_is_least_action, C03_unique: the computed U satisfies the defining equations and any two least-action unitaries coincide (given a left inverse of the Sylvester operator on eliminated elements).",
+                text="Theorems C03_gauge (+ _two_block), C03_is_least_action, C03_unique: the computed U satisfies the defining equations and any two least-action unitaries coincide (given a left inverse of the Sylvester operator on eliminated elements). C03_tie_gauge / C03_tie_unique: for every k_semeq case with check_alg && inputs_ok the gauge condition holds for the implementation's tables up to order N, and any U' satisfying the least-action conditions up to order N equals the computed U up to order N (the left-inverse property is proved for the concrete diagonal solver).",
                 note=ALG_NOTE),
     "C04": dict(cat="proof", tech="MathComp theorems on char_poly under truncated similarity + executable list-based char-poly proved equal to MathComp's, evaluated on the implementation's U, U†, H_tilde (k_charpoly) + exact char-poly oracle that never looks at U",
                 text="13 theorems: similarity invariance of char_poly over any commutative ring, congruence version modulo any ideal (in particular modulo x^(N+1): coefficients of total order <= N, multi-parameter via F = K[c]), block-diagonal factorisation, Rayleigh-Schroedinger uniqueness of the eigenvalue series of a non-degenerate fully diagonalised level; tie lemmas proving the executable determinant equal to MathComp's. The bridge series-of-matrices <-> matrices-of-series to C01/C02 is not formalised (trusted).",
